@@ -102,7 +102,8 @@ def run(ctx):
         for i in bad[:8]:
             ctx.broke(f"model/implementation correspondence (Model/FixSched.v run) differs on trigger levels {subsets[i]}: implementation ran {coq_cases[i][1]}")
     # ---- (B) the property on the implementation
-    docs = list(gen.uniq(list(gen.POOL) + gen.sample(list(gen.d_trig_small()), 90, 4711) + ["10. x\n", "a\t\n", "", "\n", "    a\n```\nx\n```\n", "1. a\n1. b\n", "- a\n  - b\n    - c\n", "#  a  #\n\n\n\nb   \n"]))
+    docs = list(gen.uniq(list(gen.POOL) + gen.sample(list(gen.d_trig_small()), 90, 4711) + ["10. x\n", "a\t\n", "", "\n", "    a\n```\nx\n```\n", "1. a\n1. b\n", "- a\n  - b\n    - c\n", "#  a  #\n\n\n\nb   \n",
+                          "a\tb   \n", "\ta   \n", "a\tb \n", "some\ttext   \nx\n", "- a\tb   \n", "a\tb   \n\n\n\nc \n"]))  # one line that two level-0 line fixers both rewrite
     configs = [("default", [], [])]
     configs += [("only:" + r, [r], [x for x in allids if x != r]) for r in fixers]
     configs += [("pair:" + a + "+" + b, [a, b], [x for x in allids if x not in (a, b)]) for a, b in itertools.combinations(fixers, 2)]
@@ -157,7 +158,7 @@ def run(ctx):
     ]
     return ctx.finish(
         level="proof",
-        rule=f"(A) subsets of trigger levels; (B) {len(docs)} documents (pool + 90 fixed trigger documents + 8 special) x (default set, {len(fixers)} rules alone, {len(fixers) * (len(fixers) - 1) // 2} pairs); quick = all default-set cases + 1800 seed-selected others; non-trivial = a case in which fix changed the file; distinct by input",
+        rule=f"(A) subsets of trigger levels; (B) {len(docs)} documents (pool + 90 fixed trigger documents + 14 special) x (default set, {len(fixers)} rules alone, {len(fixers) * (len(fixers) - 1) // 2} pairs); quick = all default-set cases + 1800 seed-selected others; non-trivial = a case in which fix changed the file; distinct by input",
         assumptions=["fix, scan, fix are run on the same file with the same switches; 'fixable left' counts failures of fix-capable rules enabled in that configuration"],
         extra_cov={"exhaustive": ctx.tier == "thorough"},
     )
